@@ -225,7 +225,7 @@ def run(ctx):
               "pause_actions writes the deadline and marks the override on every path",
               "pause_actions does not write both pause_actions_until_ and the override flag on every path")
     for i in pw2:
-        rhs = pause.text(write_rhs(pause, i))
+        rhs = Expander(P, pause)(write_rhs(pause, i))          # (a clock reading bound to a local first is the same reading)
         ctx.check("steady_clock::now()" in rhs and "duration" in rhs, "pause_actions-value",
                   "value-shape", pause.loc(i), "deadline = steady now + duration",
                   "deadline written from unexpected expression: " + rhs)
